@@ -122,6 +122,71 @@ theorem registration_read_stable (d : Dialect) (db1 db2 db3 : Db) (hm : PromMono
     db2.exec (defs d) (.readPromise { id := x.id }) = .ok (db2, .promises [promiseSelect_proj x]) :=
   registration_sees_current_promise d db1 db2 db3 hm hk2 x hx c hid hw
 
+/-- **registration (callback / subscription).** The coroutine read the pending promise `x` in `db1`; its guarded insert is
+    applied (one row) in `db2`, whatever happened in between.  The read repeated at `db2` answers the same row
+    (`registration_read_stable`), so the request is linearized at its insert: `201`, the promise as it stands at that
+    instant, the registration, and the effect of the single-threaded server on `db2`. -/
+theorem registration_linearizable (d : Dialect) (route : Promise → Cpl) (pid cb recv : String) (m : Mesg) (to : Int) (t : Time)
+    (db1 db2 db3 : Db) (hm : PromMono db1 db2) (hk2 : PromIds db2) (x : PromiseRow) (hx : x ∈ db1.promises) (hid : x.id = pid)
+    (hpend : ((promiseSelect_proj x).toPromise.state == P_PENDING) = true)
+    (hw : db2.exec (defs d) (.createCallback { id := cb, promiseId := pid, recv := recv, mesg := m, timeout := to, createdOn := t }) = .ok (db3, .rows 1))
+    (fuel : Nat) :
+    seqRun (defs d) route (fun _ => registerCallback pid cb recv m to) t (fuel + 3) db2 (registerCallback pid cb recv m to) =
+      (db3, some (.callback S_CREATED (some (promiseSelect_proj x).toPromise)
+        (some { id := cb, promiseId := pid, recv := recv, mesg := m, timeout := to, createdOn := t }))) := by
+  have hst := registration_read_stable d db1 db2 db3 hm hk2 x hx _ (by exact hid.symm) hw
+  have hread : db2.execTx (defs d) [.readPromise { id := pid }] = .ok (db2, [.promises [promiseSelect_proj x]]) := by
+    simp only [Db.execTx, ← hid, hst]
+  have hwtx : db2.execTx (defs d) [.createCallback { id := cb, promiseId := pid, recv := recv, mesg := m, timeout := to, createdOn := t }] = .ok (db3, [.rows 1]) := by
+    simp [Db.execTx, hw]
+  simp only [registerCallback, seqRun, answerAll, hread, readPromiseRow, hpend, if_true, hwtx]
+  rfl
+
+/-- the insert a schedule creation submits at clock `t`, and the schedule it answers with -/
+def schedCmd (req : CreateScheduleReq) (next : Int) (t : Time) : CreateScheduleCmd :=
+  { id := req.id, description := req.description, cron := req.cron, tags := req.tags, promiseId := req.promiseId, promiseTimeout := req.promiseTimeout, promiseParam := req.promiseParam, promiseTags := req.promiseTags, nextRunTime := next, idempotencyKey := req.idempotencyKey, createdOn := t }
+def schedOf (req : CreateScheduleReq) (next : Int) (t : Time) : Schedule :=
+  { id := req.id, description := req.description, cron := req.cron, tags := req.tags, promiseId := req.promiseId, promiseTimeout := req.promiseTimeout, promiseParam := req.promiseParam, promiseTags := req.promiseTags, lastRunTime := none, nextRunTime := next, idempotencyKey := req.idempotencyKey, createdOn := t }
+
+/-- **schedule creation.** The insert is applied (one row) only where no schedule with the id is stored, so the read repeated
+    at that instant answers "none" as the coroutine's earlier read did, whatever happened in between; the request is
+    linearized at its insert: the concurrent execution ends with the answer (`201` and the schedule with its first run
+    computed from the creation time) and the effect of the single-threaded server on the database of the insert -/
+theorem schedule_creation_linearizable (d : Dialect) (env : Env) (route : Promise → Cpl) (req : CreateScheduleReq) (t : Time)
+    (db2 db3 : Db) (next : Int) (hn : env.cronNext req.cron t = some next)
+    (hw : db2.exec (defs d) (.createSchedule (schedCmd req next t)) = .ok (db3, .rows 1)) (fuel : Nat) :
+    seqRun (defs d) route (createSchedule env req) t (fuel + 3) db2 (createSchedule env req t) =
+      (db3, some (.schedule S_CREATED (some (schedOf req next t)))) := by
+  -- no schedule with this id is stored where the insert took effect
+  have habs : ∀ r ∈ db2.schedules, ¬ r.id = req.id := by
+    simp only [Db.exec] at hw
+    split at hw
+    · injection hw with hw; injection hw with _ h; injection h with h; cases h
+    · rename_i hany; simpa [schedCmd] using hany
+  have hfil : db2.schedules.filter (scheduleSelect_where { id := req.id }) = [] := by
+    rw [List.filter_eq_nil_iff]
+    intro r hr
+    simpa [scheduleSelect_where] using habs r hr
+  have hread : db2.execTx (defs d) [.readSchedule { id := req.id }] = .ok (db2, [.schedules []]) := by
+    simp only [Db.execTx, Db.exec, defs]
+    rw [hfil]
+    rfl
+  have hwtx : db2.execTx (defs d) [.createSchedule (schedCmd req next t)] = .ok (db3, [.rows 1]) := by
+    simp [Db.execTx, hw]
+  have hnext : (createSchedule env req t).next t [.store [.schedules []]] =
+      .yield [.store [.createSchedule (schedCmd req next t)]] (fun _ cpls2 =>
+          match cpls2 with
+          | [.err] => errResp S_AIO_STORE
+          | [.store [.rows n]] =>
+            if n > 1 then .panic "createSchedule: result must return 0 or 1 rows"
+            else if n == 1 then .done (some (.schedule S_CREATED (some (schedOf req next t))))
+            else .retry
+          | _ => .panic "createSchedule: malformed completion") := by
+    simp only [createSchedule, Co.next, readScheduleRow, hn]
+    rfl
+  exact two_step_collapse (defs d) route (createSchedule env req) t [.readSchedule { id := req.id }] _ _ _ db2 db3 _ _ _ rfl hread
+    (by simpa [Co.next, createSchedule] using hnext) hwtx rfl fuel
+
 /-! ### no answer reflects a state that never existed, or an effect that is later undone -/
 
 /-- every store result a coroutine is resumed with is the result of executing ITS transaction on a database that existed
